@@ -196,6 +196,20 @@ func generateRegexMatch(w io.Writer, lexerName, name, pattern string) error {
 			fmt.Fprintf(w, "}\n")
 			return nil
 		}
+		if re.Flags&syntax.FoldCase == 0 && hasRuneError(re.Rune) {
+			// U+FFFD also matches an invalid input byte, as in regexp: compare rune by rune.
+			fmt.Fprintf(w, "np := p\n")
+			fmt.Fprintf(w, "for _, c := range %q {\n", string(re.Rune))
+			fmt.Fprintf(w, "r, n := utf8.DecodeRuneInString(s[np:])\n")
+			fmt.Fprintf(w, "if n == 0 || r != c { return }\n")
+			fmt.Fprintf(w, "np += n\n")
+			fmt.Fprintf(w, "}\n")
+			fmt.Fprintf(w, "groups[0] = p\n")
+			fmt.Fprintf(w, "groups[1] = np\n")
+			fmt.Fprintf(w, "return\n")
+			fmt.Fprintf(w, "}\n")
+			return nil
+		}
 		if re.Flags&syntax.FoldCase != 0 {
 			fmt.Fprintf(w, "if p+%d <= len(s) && strings.EqualFold(s[p:p+%d], %q) {\n", n, n, string(re.Rune))
 		} else {
@@ -246,7 +260,16 @@ func generateRegexMatch(w io.Writer, lexerName, name, pattern string) error {
 					fmt.Fprintf(w, "if p+%d <= len(s) && strings.EqualFold(s[p:p+%d], %q) { return p+%d }\n", n, n, string(re.Rune), n)
 				}
 			} else {
-				if n == 1 {
+				if hasRuneError(re.Rune) {
+					// U+FFFD also matches an invalid input byte, as in regexp: compare rune by rune.
+					fmt.Fprintf(w, "for _, c := range %q {\n", string(re.Rune))
+					fmt.Fprintf(w, "r, n := utf8.DecodeRuneInString(s[p:])\n")
+					fmt.Fprintf(w, "if n == 0 || r != c { return -1 }\n")
+					fmt.Fprintf(w, "p += n\n")
+					fmt.Fprintf(w, "}\n")
+					fmt.Fprintf(w, "return p\n")
+					break
+				} else if n == 1 {
 					fmt.Fprintf(w, "if p < len(s) && s[p] == %q { return p+1 }\n", re.Rune[0])
 				} else {
 					fmt.Fprintf(w, "if p+%d <= len(s) && s[p:p+%d] == %q { return p+%d }\n", n, n, string(re.Rune), n)
@@ -421,6 +444,16 @@ func identifier(name string) string {
 		}
 	}
 	return out.String()
+}
+
+// hasRuneError reports whether a literal contains U+FFFD, which regexp also matches against an invalid input byte.
+func hasRuneError(runes []rune) bool {
+	for _, r := range runes {
+		if r == utf8.RuneError {
+			return true
+		}
+	}
+	return false
 }
 
 // foldKeepsWidth reports whether every text that matches the literal case-insensitively has the literal's length
